@@ -158,3 +158,13 @@ Definition doc_rewritten (from to : smode) (s : setting) : bool :=
 (* documented valid ranges of the settings in each mode (hue 0..360, percentages 0..100,
    raw 0..65535, non-negative times) *)
 Definition in_range (lo hi x : Q) : Prop := lo <= x /\ x <= hi.
+
+(* a transmitted integer meets a [want] *)
+Definition meets (w : want) (n : Z) : Prop :=
+  (w_lo w <= n <= w_hi w)%Z /\
+  (w_free w = true \/
+   (w_hue w = true /\ hue_nearest (w_exact w) n) \/
+   (w_hue w = false /\ nearest_clamped (w_lo w) (w_hi w) (w_exact w) n)).
+
+Definition color_meets (w : color4 want) (c : color4 Z) : Prop :=
+  meets (c0 w) (c0 c) /\ meets (c1 w) (c1 c) /\ meets (c2 w) (c2 c) /\ meets (c3 w) (c3 c).
